@@ -190,6 +190,15 @@ def run(ctx):
                     if bb["k"] == "Call" and bb["args"] and strip(bb["args"][0])["k"] == "Call":
                         ic = strip(bb["args"][0])
                         inner[v2] = (hir.callee_name(bb), hir.variant_of(strip(ic["f"])["path"]), field_path(ic["args"][0]) == (b2[0],))
+            if not okk and b["k"] == "MethodCall" and b["method"] == "map_err" and strip(b["recv"])["k"] == "MethodCall" and strip(b["recv"])["method"] == "map":
+                # the same lift with combinators: task.try_cast_to_sentence().map(Self::Sentence).map_err(Self::Task)
+                mp = strip(b["recv"])
+                src = strip(mp["recv"])
+                if src["k"] == "MethodCall" and src["method"] == "try_cast_to_sentence" and field_path(src["recv"]) == (binds[0],):
+                    def ctor_of(a_):
+                        a_ = strip(a_)
+                        return hir.variant_of(a_["path"]) if a_["k"] == "Path" and a_["path"].get("defkind", "").startswith("Ctor") else None
+                    inner = {"Ok": ("Ok", ctor_of(mp["args"][0]), True), "Err": ("Err", ctor_of(b["args"][0]), True)}
             res[v] = inner
     ctx.ob("K-CAST", "NarseseValue lift: Term -> Err(self)", res.get("Term") == ("Err", ("self",)), "%s" % (res.get("Term"),))
     ctx.ob("K-CAST", "NarseseValue lift: Sentence -> Ok(self)", res.get("Sentence") == ("Ok", ("self",)), "%s" % (res.get("Sentence"),))
